@@ -2,7 +2,7 @@
 # round_try.sh ID... : run the property's check on each /tmp/adv/ID/out/k/patch.diff (scratch copies) and print one line each
 for ID in "$@"; do
   for k in 1 2 3; do
-    P=/tmp/adv/$ID/out/$k/patch.diff
+    P=${ADV_ROOT:-/tmp/adv}/$ID/out/$k/patch.diff
     [ -f "$P" ] || continue
     OUT=$(TRY_LINES=3 "$(dirname "$0")"/trypatch.sh "$P" "$ID" 2>&1)
     if echo "$OUT" | grep -q "^VIOLATION"; then echo "$ID/$k CAUGHT  $(echo "$OUT" | grep '^  ' | head -1 | cut -c1-170)"; 
